@@ -75,7 +75,8 @@ def census_rules(ctx, m, twf):
     ctx.check(n_sites >= 1, "append-only", "census-nonempty", "-", "trade-log mutation census found %d site(s)" % n_sites)
     # no pub API of the book/market/envs returns a mutable path to trades
     for f in ctx.prog.fns.values():
-        if f.pub and "&mut" in f.sig.split("->")[-1] and "Trade" in f.sig.split("->")[-1] and "->" in f.sig:
+        import re
+        if f.pub and "->" in f.sig and re.search(r"&('\w+ )?mut ", f.sig.split("->")[-1]) and "Trade" in f.sig.split("->")[-1]:
             ctx.bad("append-only", "mutref-api|" + f.short(), ctx.loc(f), "pub fn returns a mutable reference to trade data: " + f.sig)
     # unknown effects anywhere in the book crate would make the census unsound
     for f in m.book_all_fns():
